@@ -3,3 +3,6 @@ import Librfn.Props.C16
 import Librfn.Props.C17
 import Librfn.Props.C19
 import Librfn.Props.C20
+import Librfn.Props.C12
+import Librfn.Props.C13
+import Librfn.Props.C14
